@@ -39,7 +39,7 @@ CHECKS = {
        'paints each layer a unique opaque colour. Every response pixel, upstream call and feature-info answer is compared with an independent geometric model: denied colours '
        'appear nowhere and are never requested, pixels > 1 px outside a limit are transparent/bgcolor, pixels > 2 px inside keep their colour, feature info only inside.',
   note='Exploration, not exhaustive. Leaks thinner than ~1 px (3 px for JPEG responses) are invisible; "well inside" is 2 px because the mask is mitred by design; '
-       'capabilities filtering, legends and the demo service are not judged. Later additions: services.wms.bbox_srs extents with requests reaching beyond them; services.wms.on_source_errors raise / notify / absent.'),
+       'capabilities filtering, legends and the demo service are not judged. Later additions: services.wms.bbox_srs extents with requests reaching beyond them; services.wms.on_source_errors raise / notify / absent. Local grids with overhanging border tiles and limited_to geometries derived from the grid bbox (exact, grown, shrunk).'),
  'C02': dict(
   category='exploration',
   design_ref='DESIGN.md section 3',
@@ -57,7 +57,7 @@ CHECKS = {
   text='About 5k (quick) / 190k (thorough) generated (grid, two cache settings, 1-3 requests) cases run on a real TileManager (real WMSSource/TiledSource with a synthetic client) and a '
        'recording cache. Every stored and served tile is compared with the rendering of its own bbox - exactly (<= 0.5 level rounding) when no buffer is cut off, within 1 px otherwise, with '
        'no background more than 1 px inside the extent. Tiles are compared across the two settings (alone / meta size / buffer / minimised / bulk / threaded), and the upstream/store log against a reference plan.',
-  note='No exhaustive part. PNG non-paletted caches only; thread interleavings are whatever the OS produces; an over-fetching meta size at small levels is not observable (equivalent mutant).'),
+  note='No exhaustive part. PNG non-paletted caches only; thread interleavings are whatever the OS produces; an over-fetching meta size at small levels is not observable (equivalent mutant). Later additions: tiled (bulk) sources with coverages whose border crosses the meta tile (tiles without data must not be stored, the others must show their own ground); a forced two-thread episode inside MetaGrid.meta_tile.'),
  'C05': dict(
   category='exploration',
   design_ref='DESIGN.md section 6',
@@ -111,7 +111,7 @@ CHECKS = {
        'executions. Every audited file-system touch of each request is judged against the directories of the caches its layers use and the lock directory, and bait content planted in '
        'sibling directories is searched in responses.',
   note='No absence claim; touches inside C libraries without audit events (sqlite journals, PROJ) are not seen; POSIX only; one fixed deployment (no authorization, no S3/Redis/CouchDB/Azure backends). '
-       'os.stat probes outside the roots are counted, not judged.'),
+       'os.stat probes outside the roots are counted, not judged. Unicode look-alike separators (fullwidth solidus / backslash / full stop / percent, dot leaders, division and fraction slash) in every attacker dictionary, the escape matrix and the atheris dictionary.'),
  'C06': dict(
   category='fault_enumeration',
   design_ref='DESIGN.md section 7',
@@ -149,7 +149,7 @@ CHECKS = {
        'mapproxy.yaml / seed.yaml loaders, filled through the real backends with tiles of generated ages, and the real cleanup() result is compared with a specification of what must be removed '
        'and what must be kept, including planted bystanders (other levels, sibling cache, single_color_tiles, lock dir, unrelated files). Full-extent runs are repeated with an all-covering '
        'coverage so that directory walk, bulk delete and tile walk are compared on identical contents.',
-  note='About 14k scenarios per quick run. The +-1 s age band and the <= 0.1 px coverage-touch band are accepted either way. Dimension caches, dry_run, --continue and remote backends are not covered. Later addition: tile files vanishing during the directory walk / tile walk (injected ENOENT races) must not make the cleanup skip other expired tiles or abort.'),
+  note='About 14k scenarios per quick run. The +-1 s age band and the <= 0.1 px coverage-touch band are accepted either way. Dimension caches, dry_run, --continue and remote backends are not covered. Later addition: tile files vanishing during the directory walk / tile walk (injected ENOENT races) must not make the cleanup skip other expired tiles or abort. Server time zone as a generated dimension; 12-21 level pyramids with content at levels >= 10.'),
  'C18': dict(
   category='exploration',
   design_ref='DESIGN.md section 19',
@@ -179,7 +179,7 @@ CHECKS = {
        'log, no audit-hook write event and an unchanged cache directory / sqlite row snapshot; the last valid address and at/below-limit maps must be served; every upstream tile URL and '
        'stored path/row must decode into the grid.',
   note='~35k requests / 240 configurations quick, ~3.1M / 20000 thorough. T == max_tile_limit is judged only for side effects (documentation and code disagree on whether exactly the limit is allowed). '
-       'CPU/memory cost of a refused request is not measured; WMS-C tiled=true and reprojected GetMaps are not probed. Later additions: direct (uncached) and mixed WMS layers, tiled=true / vendor-parameter variants of every pixel-limit probe, two-grid caches and cache-of-cache cascades for the tile-limit probes.'),
+       'CPU/memory cost of a refused request is not measured; WMS-C tiled=true and reprojected GetMaps are not probed. Later additions: direct (uncached) and mixed WMS layers, tiled=true / vendor-parameter variants of every pixel-limit probe, two-grid caches and cache-of-cache cascades for the tile-limit probes. Over-limit GetMap must be answered with an error whatever EXCEPTIONS says (in-image / blank spellings of 1.1.1 and 1.3.0); WMTS GetFeatureInfo probes against each matrix set of two-grid layers.'),
  'C01': dict(
   category='exploration',
   design_ref='DESIGN.md section 2 and 25.9',
